@@ -55,12 +55,13 @@ def build(thorough):
     add('rank_refusals', '', {})
     add('lrt_two', '', {})
     add('strictness_edges', '', {})
+    add('strictness_float', '', {})
     slevel = 2 if thorough else 1
     nchunks = 24 if thorough else 10
     for i in range(nchunks):
         add('strictness', f'connectives<={slevel},chunk={i}/{nchunks}', dict(VH_SLEVEL=slevel, VH_CHUNK=f'{i}/{nchunks}'))
     tw = dict(VH_NC=2, VH_SLEVEL=1)
-    for f in ('rank', 'rank_refusals', 'lrt_two', 'strictness', 'strictness_edges'):
+    for f in ('rank', 'rank_refusals', 'lrt_two', 'strictness', 'strictness_edges', 'strictness_float'):
         obs.append(Ob(f'{f}__twin', H, f + '__twin', 120, kind='twin', env=tw))
     obs.append(Ob('rank_lrt__twin', H, 'rank_lrt__twin', 120, kind='twin', env=dict(VH_NC=2, VH_RT='lrt')))
     obs.sort(key=lambda o: (o.kind == 'twin', -int(o.env.get('VH_NC', 0)), o.func != 'rank_lrt'))
@@ -158,8 +159,9 @@ def main():
         lrt_parameter_counts='0..3 per model (lrt_two: 0..6), symbolic',
         strictness=f'atoms minimization_successful, rounding_errors, maxevals_exceeded, final_zero_gradient, '
                    f'sigdigs/rse with each comparison operator; not/and/or/parentheses with <= {slevel} binary '
-                   f'connectives; result attributes symbolic (bools, termination cause, integer sigdigs, 2 integer '
-                   f'RSEs, NaN flag)',
+                   f'connectives and integer thresholds; result attributes symbolic (bools, termination cause, '
+                   f'integer sigdigs, 2 integer RSEs, NaN flag); the documented examples with thresholds 0.1 / 0.4: '
+                   f'sigdigs and RSEs from 5-value tables around the threshold (symbolic index)',
         criteria_corpus=info.get('corpus'),
         outside='floating point rounding and float-valued OFVs in rank_models (ints only: CrossHair does not confirm '
                 'the float version); pandas itself (DataFrame construction, sort_values, idxmin: contract stub); '
